@@ -77,4 +77,8 @@ Spec == Init /\ [][Next]_vars
 \* evaluated once per graph (in the not-yet-emitted state)
 Inv_Strict == done \/ LET g == G IN Thm_AcceptIffWellFormed(g) /\ Thm_HitlStrict(g)
 Inv_Faithful == done \/ LET g == G IN Thm_AcceptIffWellFormed(g) /\ Thm_HitlFaithful(g)
+\* the drawn representation of every accepted graph is closed (build.py)
+Inv_Repr == done \/ LET g == G IN Thm_ReprClosed(g) /\ Thm_ReprExternal(g)
+\* sanity (expected to fail): also for classes validate() rejects
+Inv_ReprAnyClass == done \/ ReprClosed(G)
 ====
